@@ -23,6 +23,10 @@ type Family struct {
 	Run    func(e *Env)
 	// Expand enumerates the fault positions of a generated scenario (fault enumeration); each result is one run.
 	Expand func(sc *Scn) []*Scn
+	// ExpandRun is Expand with access to a runner (a fault-free discovery run decides what to enumerate).
+	ExpandRun func(sc *Scn, run func(*Scn) *RunResult) []*Scn
+	// Valid rejects scenarios outside the family's domain (used on shrink candidates).
+	Valid func(sc *Scn) bool
 	// Shrink proposes smaller scenarios (generic shrinker is used when nil).
 	Shrink func(sc *Scn) []*Scn
 	// MaxSteps overrides the default step cap.
@@ -86,6 +90,8 @@ type RunResult struct {
 	Trace      []string
 	HarnessErr string
 	Notes      []string
+	CallLog    []CallRec
+	Out        map[string]string
 }
 
 func makeStrategy(s *SchedSpec) simrt.Strategy {
@@ -168,6 +174,8 @@ func RunOnce(t *testing.T, fam *Family, sc *Scn, sched *SchedSpec, trace bool) *
 			res.Probes = env.Probes
 			res.Trace = k.TraceLog
 			res.Notes = env.notes
+			res.CallLog = env.CallLog
+			res.Out = env.Out
 			for _, esc := range k.Escapes {
 				if !esc.Lib && !env.expectHarnessPanic {
 					res.HarnessErr = fmt.Sprintf("harness actor %s panicked: %v\n%s", esc.Site, esc.Value, esc.Stack)
